@@ -2,6 +2,7 @@ package main
 
 import (
 	"fmt"
+	"sort"
 
 	"golang.org/x/tools/go/ssa"
 )
@@ -263,12 +264,43 @@ func ruleStaleAnswered(c *Ctx) {
 	c.need(rule, h, "successful return", func(x ssa.Instruction) bool { r, ok := x.(*ssa.Return); return ok && retIsNilErr(r) }, []Ev{f2}, all, "the staleness error is propagated")
 }
 
+// ruleHeartbeatFields: the staleness tests compare what the heartbeat carried;
+// a field that RegionFromHeartbeat does not copy reads as zero and switches its
+// test off (a term of 0 means "not reported"). Each field the property's
+// checks and the per-store statistics read is taken from the request's getter.
+func ruleHeartbeatFields(c *Ctx, fields map[string]string) {
+	P := c.P
+	rule := c.Prop + "/heartbeat-fields"
+	fn := P.Func("server/core", "RegionFromHeartbeat")
+	c.saw(fnName(fn))
+	hb := "github.com/pingcap/kvproto/pkg/pdpb"
+	var names []string
+	for f := range fields {
+		names = append(names, f)
+	}
+	sort.Strings(names)
+	for _, f := range names {
+		field := P.Field("server/core", "RegionInfo", f)
+		getter := F(P.Method(hb, "RegionHeartbeatRequest", fields[f]))
+		ok := false
+		for _, st := range storesToField(fn, field) {
+			if derivesFrom(st.Val, resultOfCall(getter), 6) && isFreshBase(st.Addr) {
+				ok = true
+			}
+		}
+		c.Check(ok, rule, "RegionInfo."+f+" in "+fnName(fn), "copied from the heartbeat's "+fields[f]+"()", P.pos(fn.Pos()), "")
+	}
+}
+
 func init() {
 	register("C06", "Region cache never regresses and never holds overlapping regions", func(c *Ctx) {
 		c.Group("C06/checked-put", "a region enters the served cache only right after PreCheckPutRegion succeeded on the same region, inside the cluster write lock on the heartbeat path", func() { ruleCheckedPut(c) })
 		c.Group("C06/staleness-atoms", "the precheck rejects on version vs every overlap, and on term/version/conf-version vs the same-id region; the overlap scan is skipped only for a byte-identical range", func() { ruleStalenessAtoms(c) })
 		c.Group("C06/displaced-removed", "regions displaced by an accepted region are removed from the cache at once and deleted from storage by the caller", func() { ruleDisplacedRemoved(c) })
 		c.Group("C06/backend-selection", "(shared with C17) displaced regions are deleted from the backend region records are saved to and loaded from", func() { ruleRegionBackendSelection(c) })
+		c.Group("C06/heartbeat-fields", "the region built from a heartbeat carries the epoch (meta), the raft term and the leader the staleness tests compare", func() {
+			ruleHeartbeatFields(c, map[string]string{"term": "GetTerm", "meta": "GetRegion", "leader": "GetLeader"})
+		})
 		c.Group("C06/stale-answered", "a stale heartbeat changes nothing and is answered with an error", func() { ruleStaleAnswered(c) })
 	})
 }
